@@ -109,6 +109,7 @@ package scan
 
 //@ func newRangeIterator
 //@   sig n
+//@   locals idx: int ;; cyclic: struct{P int64; G int64; N int64} ;; P: *math/big.Int ;; G: *math/big.Int ;; N: *math/big.Int ;; randM: *math/big.Int ;; one: *math/big.Int ;; randI: *math/big.Int ;; it: *rangeIterator
 //@   props C04 C01 C02 C08 C19
 //@   modifies nothing
 //@   ensures reject: (n < 1 || n >= 4294967357) ==> ret1 != nil
@@ -131,6 +132,7 @@ package scan
 //   otherwise           -> exactly one packet carrying the buffer that was filled for this request
 // (send? = the guarded send: sent, or the scan was cancelled)
 //@ func (*packetGenerator).Packets$1
+//@   locals r: *Request ;; ok: bool ;; buf: github.com/google/gopacket.SerializeBuffer ;; err: error
 //@   props C07 C13 C12 C01 C19 C05 C11 C16 C02 C17
 //@   observe NewSerializeBuffer, Fill
 //@   loop 0 row cancel:  [ctxdone ; close out] -> exit
@@ -144,12 +146,14 @@ package scan
 //@   loop 0 row fill_c:    [recv in as (r, true) ; call NewSerializeBuffer() as (buf) ; call Fill(g.filler, buf, r) as (ferr) ; ctxdone] when r.Err == nil -> continue
 //@ func (*packetGenerator).Packets
 //@   sig g, ctx, in
+//@   locals out: chan *github.com/v-byte-cpu/sx/pkg/packet.BufferData
 //@   props C07 C16 C01 C19 C05 C11 C13 C12 C02 C17
 //@   entry row start: [go (*packetGenerator).Packets$1] -> exit
 
 // multi-generator: exactly numWorkers generator instances, all reading the same request channel, merged
 //@ func (*packetMultiGenerator).Packets
 //@   sig g, ctx, in
+//@   locals workers: []<-chan *github.com/v-byte-cpu/sx/pkg/packet.BufferData ;; i: int
 //@   props C07 C16 C01 C19 C13 C05 C11 C12 C02 C17
 //@   observe Packets, MergeBufferDataChan
 //@   requires g.numWorkers >= 0
@@ -161,6 +165,7 @@ package scan
 // multiplexers have returned
 //@ func MergeBufferDataChan$1
 //@   sig c
+//@   locals e: *github.com/v-byte-cpu/sx/pkg/packet.BufferData ;; ok: bool
 //@   props C07 C12 C01 C19 C13 C05 C11 C16 C02 C17
 //@   observe (*sync.WaitGroup).Done
 //@   loop 0 row cancel:  [ctxdone ; call Done(_)] -> exit
@@ -173,6 +178,7 @@ package scan
 //@   entry row closer: [call Wait(_) ; close out] -> exit
 //@ func MergeBufferDataChan
 //@   sig ctx, channels
+//@   locals wg: sync.WaitGroup ;; out: chan *github.com/v-byte-cpu/sx/pkg/packet.BufferData ;; multiplex: func(c <-chan *github.com/v-byte-cpu/sx/pkg/packet.BufferData) ;; c: <-chan *github.com/v-byte-cpu/sx/pkg/packet.BufferData
 //@   props C07 C12 C16 C01 C19 C13 C05 C11 C02 C17
 //@   observe (*sync.WaitGroup).Add
 //@   entry row setup: [call Add(_, len(channels))] -> loop 0
@@ -190,6 +196,7 @@ package scan
 // packet engine: the source feeds the sender, completion = the sender's done, both error streams are merged
 //@ func (*PacketEngine).Start
 //@   sig e, ctx, r
+//@   locals packets: <-chan *github.com/v-byte-cpu/sx/pkg/packet.BufferData ;; done: <-chan interface{} ;; errc1: <-chan error ;; errc2: <-chan error
 //@   props C07 C16 C12 C01 C20 C19 C13 C03 C08 C14 C15 C06 C09 C10 C11
 //@   observe Packets, SendPackets, ReceivePackets, mergeErrChan
 //@   entry row wiring: [call Packets(e.src, ctx, r) as (pk) ; call SendPackets(e.snd, ctx, pk) as (done, errc1) ; call ReceivePackets(e.rcv, ctx) as (errc2) ; call mergeErrChan(ctx, bind_cs) as (m)]
@@ -198,6 +205,7 @@ package scan
 // error merger (same shape as the packet merger; the send is guarded)
 //@ func mergeErrChan$1
 //@   sig c
+//@   locals e: error ;; ok: bool
 //@   props C07 C08 C12 C20 C16 C13 C03
 //@   observe (*sync.WaitGroup).Done
 //@   loop 0 row cancel:  [ctxdone ; call Done(_)] -> exit
@@ -209,6 +217,7 @@ package scan
 //@   entry row closer: [call Wait(_) ; close out] -> exit
 //@ func mergeErrChan
 //@   sig ctx, channels
+//@   locals wg: sync.WaitGroup ;; out: chan error ;; multiplex: func(c <-chan error) ;; c: <-chan error
 //@   props C07 C08 C12 C20 C16 C13 C03
 //@   observe (*sync.WaitGroup).Add
 //@   entry row setup: [call Add(_, len(channels))] -> loop 0
@@ -221,6 +230,7 @@ package scan
 // one error, or one result, or nothing
 //@ func (*GenericEngine).worker
 //@   sig e, ctx, wg, requests, errc
+//@   locals r: *Request ;; ok: bool ;; result: Result ;; err: error
 //@   props C08 C13 C12 C10 C09 C01 C02 C15
 //@   observe Scan, Put, (*sync.WaitGroup).Done
 //@   loop 0 row cancel:  [ctxdone ; call Done(_)] -> exit
@@ -233,12 +243,14 @@ package scan
 // Start: generator failure -> one error, both channels closed; otherwise the coordinator goroutine
 //@ func (*GenericEngine).Start
 //@   sig e, ctx, r
+//@   locals done: chan interface{} ;; errc: chan error ;; requests: <-chan *Request ;; err: error
 //@   props C08 C12 C16 C01 C13 C02 C09 C10 C15
 //@   observe GenerateRequests
 //@   entry row generr: [call GenerateRequests(e.reqgen, ctx, r) as (reqs, gerr) ; send bind_ec gerr ; close bind_ec2 ; close bind_dc] when gerr != nil && ec == ec2 && ret0 == dc && ret1 == ec -> exit
 //@   entry row start:  [call GenerateRequests(e.reqgen, ctx, r) as (reqs, gerr) ; go (*GenericEngine).Start$1] when gerr == nil -> exit
 // coordinator: workerCount workers on the same request channel; completion only after all of them returned
 //@ func (*GenericEngine).Start$1
+//@   locals wg: sync.WaitGroup ;; i: int
 //@   props C08 C12 C16 C01 C13 C02 C09 C10 C15
 //@   observe (*sync.WaitGroup).Add, (*sync.WaitGroup).Wait
 //@   loop 0 invariant bounds: 1 <= i && (e.workerCount >= 0 ==> i <= e.workerCount + 1) && (e.workerCount < 0 ==> i == 1)
@@ -251,6 +263,7 @@ package scan
 //@   props C08 C12 C14 C20 C16 C06 C03 C09 C10 C11
 //@   entry row put: [send? c.internalResults r] -> exit
 //@ func NewResultChan$1
+//@   locals v: Result
 //@   props C08 C12 C14 C16 C03 C06 C20 C09 C10 C11
 //@   loop 0 row cancel:  [ctxdone ; close results] -> exit
 //@   loop 0 row forward: [recv internalResults as (v, _) ; send? results v] -> loop 0
@@ -280,6 +293,7 @@ package scan
 //@                            when requests == nr -> continue
 //@ func (*liveRequestGenerator).GenerateRequests
 //@   sig rg, ctx, r
+//@   locals requests: <-chan *Request ;; err: error ;; out: chan *Request
 //@   props C19 C01 C02 C07 C13 C17 C04 C05 C08 C12 C11
 //@   observe GenerateRequests
 //@   entry row fail:  [call GenerateRequests(rg.delegate, ctx, r) as (rq, e)] when e != nil && ret0 == nil && ret1 == e -> exit
@@ -305,6 +319,7 @@ package scan
 //@   ensures ret == nil ==> v.IP == ite(hasip(data), jsonip(data), old(v.IP)) && v.Port == ite(hasport(data), jsonport(data), old(v.Port))
 
 //@ func (*fileIPPortGenerator).GenerateRequests$1
+//@   locals scanner: *bufio.Scanner ;; entry: IPPort ;; err: error ;; ip: net.IP
 //@   props C13 C01 C12 C07 C02 C17 C19 C04 C05 C08 C11
 //@   observe (*bufio.Scanner).Scan, (*bufio.Scanner).Bytes, (*bufio.Scanner).Err, UnmarshalJSON, net.ParseIP, Close
 //@   loop 0 row eof:     [call Scan(_) as (more) ; call Err(_) as (e) ; call Close(_) ; close out] when !more && e == nil -> exit
@@ -321,6 +336,7 @@ package scan
 
 // address file: same per-line rule; any bad line ends the stream after its one error
 //@ func (*fileIPGenerator).IPs$1
+//@   locals scanner: *bufio.Scanner ;; entry: IPPort ;; err: error ;; ip: net.IP
 //@   props C13 C01 C12 C07 C02 C17 C19 C04 C05 C08 C11
 //@   observe (*bufio.Scanner).Scan, (*bufio.Scanner).Bytes, (*bufio.Scanner).Err, UnmarshalJSON, net.ParseIP, Close
 //@   loop 0 row eof:     [call Scan(_) as (more) ; call Err(_) as (e) ; call Close(_) ; close out] when !more && e == nil -> exit
@@ -355,6 +371,7 @@ package scan
 //@ pred IPv4Net(n *net.IPNet) = n != nil && len(n.IP) == 4 && len(n.Mask) == 4
 //@ func (*ipGenerator).IPs
 //@   sig arg0, ctx, r
+//@   locals ipnet: *net.IPNet ;; ones: int ;; bits: int ;; it: *rangeIterator ;; err: error ;; baseIP: *math/big.Int ;; out: chan IPGetter
 //@   props C01 C02 C04 C19 C07 C13 C17 C05 C08 C12 C11
 //@   requires r != nil && (r.DstSubnet != nil ==> IPv4Net(r.DstSubnet))
 //@   ensures nosubnet: old(r.DstSubnet) == nil ==> ret0 == nil && ret1 == ErrSubnet
@@ -394,12 +411,14 @@ package scan
 //@   ensures ordered: ret == nil ==> (forall k int :: 0 <= k && k < len(ports) ==> ports[k].StartPort <= ports[k].EndPort)
 //@ func (*portGenerator).Ports
 //@   sig arg0, ctx, r
+//@   locals err: error ;; out: chan PortGetter
 //@   props C01 C04 C02 C07 C13 C17 C19 C05 C08 C12 C11
 //@   requires r != nil
 //@   observe validatePorts
 //@   entry row invalid: [call validatePorts(r.Ports) as (e)] when e != nil && ret0 == nil && ret1 == e -> exit
 //@   entry row start:   [call validatePorts(r.Ports) as (e) ; go (*portGenerator).Ports$1{out: bind_o, r: bind_r2, ctx: bind_c}] when e == nil && ret1 == nil && ret0 == o && r2 == r && c == ctx -> exit
 //@ func (*portGenerator).Ports$1
+//@   locals portRange: *PortRange ;; it: *rangeIterator ;; err: error ;; basePort: int64
 //@   props C01 C12 C04 C18 C02 C07 C13 C17 C19 C05 C08 C11
 //@   observe newRangeIterator, (*math/big.Int).Int64, Next
 //@   requires r != nil && (forall k int :: 0 <= k && k < len(r.Ports) ==> r.Ports[k].StartPort <= r.Ports[k].EndPort)
@@ -423,6 +442,7 @@ package scan
 // carrying that address, that port and the range's source addresses; then the address generator is started again
 // exactly once. (ports x addresses, each pair once, by the fold schema over the two loops.)
 //@ func (*ipPortGenerator).GenerateRequests$1
+//@   locals p: PortGetter ;; port: uint16 ;; err: error ;; ipaddr: IPGetter ;; dstip: net.IP ;; err: error
 //@   props C01 C12 C13 C07 C02 C17 C19 C04 C05 C08 C11
 //@   observe GetPort, GetIP, IPs
 //@   loop 0 row closed:   [recv ports as (p, false) ; close out] -> exit
@@ -434,6 +454,7 @@ package scan
 //@   loop 1 row regenerr: [recv pre(ips) as (a, false) ; call IPs(rg.ipgen, ctx, r) as (nips, e3) ; send? out bind_x ; close out] when e3 != nil && x.Err == e3 -> exit
 //@ func (*ipPortGenerator).GenerateRequests
 //@   sig rg, ctx, r
+//@   locals ports: <-chan PortGetter ;; err: error ;; ips: <-chan IPGetter ;; out: chan *Request
 //@   props C01 C02 C07 C13 C17 C19 C04 C05 C08 C12 C11
 //@   observe Ports, IPs
 //@   entry row noports: [call Ports(rg.portgen, ctx, r) as (ps, e)] when e != nil && ret0 == nil && ret1 == e -> exit
@@ -444,12 +465,14 @@ package scan
 
 // port-less scans (arp, icmp): one request per address of the single pass
 //@ func (*ipRequestGenerator).GenerateRequests$1
+//@   locals ipaddr: IPGetter ;; dstip: net.IP ;; err: error
 //@   props C01 C12 C13 C07 C19 C02 C17 C04 C05 C08 C11
 //@   observe GetIP
 //@   loop 0 row closed:  [recv ips as (a, false) ; close out] -> exit
 //@   loop 0 row request: [recv ips as (a, true) ; call GetIP(a) as (dstip, e) ; send? out bind_x] when x.DstIP == dstip && x.Err == e && x.SrcIP == r.SrcIP && x.SrcMAC == r.SrcMAC && newobj(x) -> continue
 //@ func (*ipRequestGenerator).GenerateRequests
 //@   sig rg, ctx, r
+//@   locals ips: <-chan IPGetter ;; err: error ;; out: chan *Request
 //@   props C01 C19 C02 C07 C13 C17 C04 C05 C08 C12 C11
 //@   observe IPs
 //@   entry row noips: [call IPs(rg.ipgen, ctx, r) as (is, e)] when e != nil && ret0 == nil && ret1 == e -> exit
@@ -466,6 +489,7 @@ package scan
 //@   ensures s.workerCount == workerCount
 //@ func NewScanEngine
 //@   sig reqgen, scanner, results, opts
+//@   locals s: *GenericEngine ;; o: GenericEngineOption
 //@   props C08 C01 C02 C09 C10 C13 C15 C12
 //@   observe GenericEngineOption
 //@   entry row init:  [] when s.reqgen == reqgen && s.scanner == scanner && s.results == results && s.workerCount == 100 -> loop 0
@@ -490,6 +514,7 @@ package scan
 //@   ensures isptr(ret, packetGenerator) && asptr(ret, packetGenerator).filler == filler
 //@ func NewPacketMultiGenerator
 //@   sig filler, numWorkers
+//@   locals gen: *packetGenerator
 //@   props C07 C01 C19 C05 C11 C13 C16 C12 C02 C17
 //@   ensures isptr(ret, packetMultiGenerator) && asptr(ret, packetMultiGenerator).numWorkers == numWorkers && asptr(ret, packetMultiGenerator).gen != nil && asptr(ret, packetMultiGenerator).gen.filler == filler
 //@ func NewPacketEngine
@@ -533,6 +558,7 @@ package scan
 //@   ensures isptr(ret, filterIPRequestGenerator) && asptr(ret, filterIPRequestGenerator).delegate == delegate && asptr(ret, filterIPRequestGenerator).excludeIPs == excludeIPs
 //@ func (*filterIPRequestGenerator).GenerateRequests
 //@   sig rg, ctx, r
+//@   locals requests: <-chan *Request ;; err: error ;; out: chan *Request
 //@   props C02 C13 C01 C07 C17 C19 C04 C05 C08 C12 C11
 //@   observe GenerateRequests
 //@   entry row fail:  [call GenerateRequests(rg.delegate, ctx, r) as (rq, e)] when e != nil && ret0 == nil && ret1 == e -> exit
@@ -540,6 +566,7 @@ package scan
 //@                       when e == nil && ret1 == nil && ret0 == o && rq2 == rq && c == ctx && g2 == rg -> exit
 //@ func (*fileIPPortGenerator).GenerateRequests
 //@   sig rg, ctx, r
+//@   locals input: io.ReadCloser ;; err: error ;; out: chan *Request
 //@   props C01 C13 C02 C07 C17 C19 C04 C05 C08 C12 C11
 //@   observe openFile
 //@   entry row fail:  [call openFile() as (in, e)] when e != nil && ret0 == nil && ret1 == e -> exit
@@ -547,6 +574,7 @@ package scan
 //@                       when e == nil && ret1 == nil && ret0 == o && in2 == in && c == ctx && r2 == r -> exit
 //@ func (*fileIPGenerator).IPs
 //@   sig g, ctx, _
+//@   locals input: io.ReadCloser ;; err: error ;; out: chan IPGetter
 //@   props C01 C13 C02 C07 C17 C19 C04 C05 C08 C12 C11
 //@   observe openFile
 //@   entry row fail:  [call openFile() as (in, e)] when e != nil && ret0 == nil && ret1 == e -> exit
@@ -554,6 +582,7 @@ package scan
 //@                       when e == nil && ret1 == nil && ret0 == o && in2 == in && c == ctx -> exit
 //@ func NewResultChan
 //@   sig ctx, capacity
+//@   locals results: chan Result ;; internalResults: chan Result ;; copyChans: func()
 //@   props C08 C12 C14 C16 C03 C06 C20 C09 C10 C11
 //@   entry row start: [go NewResultChan$1{results: bind_rs, internalResults: bind_ir, ctx: bind_c}]
 //@                       when c == ctx && isptr(ret, resultChan) && asptr(ret, resultChan).results == rs && asptr(ret, resultChan).internalResults == ir && asptr(ret, resultChan).ctx == ctx && rs != ir -> exit
